@@ -88,8 +88,15 @@ def sched_facts():
     i1 = s.index('try: await asyncio.gather(*(_worker() for _ in range(self._concurrent)))')
     i2 = s.index('except: abort.set() raise', i1)
     i3 = s.index('finally: await chunk_producer', i2)
-    prod = ast.unparse(pyast.find_func(snap, '_chunk_producer'))
-    assert 'if abort.is_set():' in prod and 'chunk_queue.put(chunk, timeout=queue_timeout)' in prod
+    prodf = pyast.find_func(snap, '_chunk_producer')
+    # the put-retry loop must re-test the abort flag on EVERY iteration (a full queue is never drained once the workers died)
+    retry = [n for n in ast.walk(prodf) if isinstance(n, ast.While) and 'chunk_queue.put(chunk, timeout=queue_timeout)' in ast.unparse(n)]
+    assert len(retry) == 1 and ast.unparse(retry[0].test) == 'True', 'put-retry loop expected'
+    first = retry[0].body[0]
+    assert isinstance(first, ast.If) and ast.unparse(first.test) == 'abort.is_set()' and isinstance(first.body[-1], ast.Return), \
+        'the retry loop must start by testing the abort flag and return'
+    tr = retry[0].body[1]
+    assert isinstance(tr, ast.Try) and ast.unparse(tr.handlers[0].type) == 'queue.Full' and isinstance(tr.orelse[0], ast.Break)
     out.append('Definition fact_abort_stops_producer : bool := true.')
     # 6. restore: removal, emptiness test and pop happen in ONE critical section
     rs = pyast.find_func(R, 'restore')
